@@ -416,7 +416,7 @@ static std::string lastComponent(const std::string &full)
     size_t cc = fn.rfind("::"); if(cc != std::string::npos) fn = fn.substr(cc + 2);
     return fn;
 }
-struct Crash { std::string cls, what, fn, file, top; long line; int sig; };
+struct Crash { std::string cls, what, fn, file, top, topfn; long line; int sig; };
 static bool has(const std::string &s, const char *n) { return s.find(n) != std::string::npos; }
 
 static Crash classify(int status, const std::string &err)
@@ -461,7 +461,7 @@ static Crash classify(int status, const std::string &err)
         size_t col = path.find(':'); std::string file = path.substr(0, col);
         long line = col == std::string::npos ? 0 : atol(path.c_str() + col + 1);
         size_t bs = file.rfind('/'); file = bs == std::string::npos ? file : file.substr(bs + 1);
-        if(!any) { char b[32]; snprintf(b, sizeof b, ":%ld", line); c.top = fn + " " + file + b; }
+        if(!any) { char b[32]; snprintf(b, sizeof b, ":%ld", line); c.top = fn + " " + file + b; c.topfn = fn; }
         any = true;
         if(fn.compare(0, 5, "opn2_") == 0)
         {
@@ -483,7 +483,7 @@ static Crash classify(int status, const std::string &err)
             {
                 std::string file = rest.substr(0, c1); size_t bs = file.rfind('/'); c.file = bs == std::string::npos ? file : file.substr(bs + 1);
                 c.line = atol(rest.c_str() + c1 + 1); c.fn = lastComponent(rest.substr(c2 + 2));
-                char nb[32]; snprintf(nb, sizeof nb, ":%ld", c.line); c.top = c.fn + " " + c.file + nb;
+                char nb[32]; snprintf(nb, sizeof nb, ":%ld", c.line); c.top = c.fn + " " + c.file + nb; c.topfn = c.fn;
             }
         }
     }
@@ -566,7 +566,7 @@ int main(int argc, char **argv)
             if(getenv("VERIF_API_STDERR")) { FILE *ef = fopen(getenv("VERIF_API_STDERR"), "a"); if(ef) { fprintf(ef, "==== history at script line %zu, call %zu\n%s\n", li + 1, done, err.substr(0, 6000).c_str()); fclose(ef); } }
             JW w; w.first = false;
             w.key("crash"); w.begin_obj(); w.ks("cls", c.cls); w.kv("sig", c.sig); w.kv("exit", WIFEXITED(status) ? WEXITSTATUS(status) : -1);
-            w.ks("what", c.what); w.ks("fn", c.fn); w.ks("file", c.file); w.kv("line", c.line); w.ks("top", c.top); w.end_obj();
+            w.ks("what", c.what); w.ks("fn", c.fn); w.ks("file", c.file); w.kv("line", c.line); w.ks("top", c.top); w.ks("topfn", c.topfn); w.end_obj();
             if(li + done < to) { std::string x = lines[li + done]; x.pop_back(); recs.push_back(x + w.s + "}"); ++done; }
             else if(!recs.empty()) { recs.back().pop_back(); recs.back() += w.s + ",\"atclose\":1}"; }   // died in the implicit opn2_close that ends every history
         }
